@@ -48,7 +48,8 @@ ASSUMPTIONS = ['menu model read from panqec/gui/js/main.js: L in 1..12, '
 REQUIRED_COUNTERS = ['code_data_requests', 'decode_requests',
                      'new_errors_requests', 'decoder_name_requests',
                      'rotated_picture_requests', 'coprime_requests',
-                     'deformed_requests']
+                     'deformed_requests', 'repeated_requests_compared',
+                     'extended_gui_requests', 'extended_gui_decodes']
 SHARD_TIMEOUT = {'quick': 900, 'thorough': 5400}
 
 BUDGET = {'quick': 3 * 10 ** 5, 'thorough': 4 * 10 ** 6}
@@ -109,8 +110,11 @@ def display_ok(returned, coord, rotated):
     return False
 
 
+SEEN_BODIES = {}
+
+
 def check_code_data(out, client, gui_name, cls_name, size, dname, rotated,
-                    coprime):
+                    coprime, repeat=False):
     desc = {'endpoint': '/code-data', 'code': gui_name, 'size': list(size),
             'deformation': dname, 'rotated_picture': rotated}
     mech = f'code-data/{cls_name}/' + ('rotated' if rotated else 'kitaev')
@@ -129,6 +133,25 @@ def check_code_data(out, client, gui_name, cls_name, size, dname, rotated,
             raise
         status, body = 500, None
         desc['exception'] = f'{type(e).__name__}: {e} at {where}'
+    key = json.dumps(payload, sort_keys=True)
+    if repeat:
+        # the same request again, after other requests were served in
+        # between: the answer must be the same
+        out.count('repeated_requests_compared')
+        first = SEEN_BODIES.get(key)
+        if first is not None and (status, body) != first:
+            what = 'status' if status != first[0] else next(
+                (f'{k}[{i}]' for k in ('qubits', 'stabilizers')
+                 for i, (a, b) in enumerate(zip(body.get(k, []),
+                                                first[1].get(k, [])))
+                 if a != b), 'body')
+            out.violation(f'{mech}/repeated-request-differs',
+                          f'the same /code-data request for {gui_name} '
+                          f'{size} deformation={dname} rotated={rotated} was '
+                          f'answered differently the second time ({what})',
+                          desc)
+        return
+    SEEN_BODIES[key] = (status, body)
     out.count('code_data_requests')
     if rotated:
         out.count('rotated_picture_requests')
@@ -367,7 +390,8 @@ def check_decode_and_errors(out, client, gui_name, cls_name, size, rng, tier):
 
 def plan(tier, seed):
     codes_by_dim = {2: fam.CLASSES_2D, 3: fam.CLASSES_3D}
-    tasks = [{'kind': 'names', 'cost': 200}]
+    tasks = [{'kind': 'names', 'cost': 200},
+             {'kind': 'extended', 'seed': seed, 'cost': 2000}]
     for cls_name in fam.ALL_CLASSES:
         for L in range(1, 13):
             for coprime in (False, True):
@@ -404,6 +428,11 @@ def run_data(task, out):
         for rotated in (False, True):
             check_code_data(out, client, gui_name, cls_name, size, dname,
                             rotated, task['coprime'])
+    for dname in [None] + list(codes[gui_name].deformation_names):
+        for rotated in (False, True):
+            check_code_data(out, client, gui_name, cls_name, size, dname,
+                            rotated, task['coprime'], repeat=True)
+    SEEN_BODIES.clear()
     if code.n <= (120 if task['tier'] == 'quick' else 400):
         reps = 3 if task['tier'] == 'quick' else 8
         for _ in range(reps):
@@ -411,8 +440,137 @@ def run_data(task, out):
                                     rng, task['tier'])
 
 
+def run_extended(task, out):
+    """A GUI instance extended through its documented add_code /
+    add_decoder calls: the additions must be offered and served like the
+    built-in ones, and the built-in menus must include them where they
+    declare support."""
+    import panqec.gui._gui as g
+    from panqec.gui import GUI
+    from panqec.codes import Toric2DCode, Toric3DCode
+    from panqec.decoders import MatchingDecoder, BeliefPropagationOSDDecoder
+    from panqec.error_models import PauliErrorModel
+
+    # user classes reuse the drawing tables of their parents (the id is
+    # what gui-config.json is looked up by)
+    class MyToric2DCode(Toric2DCode):
+        id = property(lambda self: 'Toric2DCode')
+
+    class MyToric3DCode(Toric3DCode):
+        id = property(lambda self: 'Toric3DCode')
+
+    class MyMatching(MatchingDecoder):
+        allowed_codes = ['MyToric2DCode', 'Planar2DCode']
+
+    class MyBPOSD(BeliefPropagationOSDDecoder):
+        allowed_codes = None
+
+    before = (dict(g.codes), dict(g.decoders))
+    gui = GUI()
+    try:
+        gui.add_code(MyToric2DCode, 'My Toric 2D')
+        gui.add_code(MyToric3DCode, 'My Toric 3D')
+        gui.add_decoder(MyMatching, 'My Matching')
+        gui.add_decoder(MyBPOSD, 'My BP-OSD')
+        client = gui.app.test_client()
+        reg_codes, reg_decs = dict(gui.codes), dict(gui.decoders)
+        for dim in (2, 3):
+            status, body = post(client, '/code-names', {'dimension': dim})
+            ref = [nm for nm, c in reg_codes.items() if c.dimension == dim]
+            out.count('extended_gui_requests')
+            out.case({'endpoint': '/code-names', 'dim': dim,
+                      'extended': True}, True)
+            if status != 200 or body != ref:
+                out.violation('extended-gui/code-names',
+                              f'/code-names({dim}) -> {status} {body}, '
+                              f'registered: {ref}', {'dim': dim})
+        for gui_name in ('Planar 2D', 'Toric 2D', 'My Toric 2D',
+                         'My Toric 3D', 'Toric 3D'):
+            cls = reg_codes[gui_name]
+            desc = {'endpoint': '/decoder-names', 'code': gui_name,
+                    'extended': True}
+            status, body = post(client, '/decoder-names',
+                                {'code_name': gui_name})
+            out.count('extended_gui_requests')
+            out.case(desc, True)
+            ref = [dn for dn, dc in reg_decs.items()
+                   if dc.allowed_codes is None
+                   or cls.__name__ in dc.allowed_codes]
+            if status != 200 or sorted(body) != sorted(ref):
+                out.violation('extended-gui/decoder-names',
+                              f'{gui_name}: offered {status} {body} but the '
+                              f'registered decoders declaring support are '
+                              f'{ref}', desc)
+                continue
+            status, dn = post(client, '/deformation-names',
+                              {'code_name': gui_name})
+            out.count('extended_gui_requests')
+            if status != 200 or dn != list(cls.deformation_names):
+                out.violation('extended-gui/deformation-names',
+                              f'{gui_name}: {status} {dn}', desc)
+            size = (3, 4) if cls.dimension == 2 else (2, 2, 3)
+            payload = {'Lx': size[0], 'Ly': size[1], 'Lz': size[-1],
+                       'code_name': gui_name,
+                       'code_deformation_name': 'None',
+                       'rotated_picture': False}
+            status, cd = post(client, '/code-data', payload)
+            out.count('extended_gui_requests')
+            code = cls(*size)
+            if status != 200:
+                out.violation('extended-gui/code-data-status',
+                              f'{gui_name}: /code-data answered {status}',
+                              desc)
+                continue
+            H = np.array(cd['H']).reshape(code.n_stabilizers, -1)
+            if gf2.pack_rows(H) != gf2.pack_rows(code.stabilizer_matrix):
+                out.violation('extended-gui/code-data-H',
+                              f'{gui_name}: H differs from the library', desc)
+            rng = np.random.default_rng([task['seed'], 2021, len(gui_name)])
+            em = PauliErrorModel(1 / 3, 1 / 3, 1 / 3)
+            for dname in body:
+                e = em.generate(code, 0.1, rng=rng)
+                syn = code.measure_syndrome(e)
+                pl = dict(payload, syndrome=[int(x) for x in syn], p=0.1,
+                          noise_deformation_name='None', max_bp_iter=10,
+                          alpha=0.4, beta=0, decoder=dname,
+                          error_model='Depolarizing')
+                status, r = post(client, '/decode', pl)
+                out.count('extended_gui_requests')
+                out.count('extended_gui_decodes')
+                kw = {}
+                if dname in ('BP-OSD', 'MBP'):
+                    kw['max_bp_iter'] = 10
+                if dname == 'BP-OSD':
+                    kw['osd_order'] = 0
+                if dname == 'MBP':
+                    kw.update(alpha=0.4, beta=0)
+                if status != 200:
+                    out.violation('extended-gui/decode-status',
+                                  f'{gui_name} / {dname}: /decode answered '
+                                  f'{status}', dict(desc, decoder=dname))
+                    continue
+                with contextlib.redirect_stdout(io.StringIO()):
+                    ref_c = np.asarray(reg_decs[dname](
+                        cls(*size), PauliErrorModel(1 / 3, 1 / 3, 1 / 3),
+                        0.1, **kw).decode(np.array(syn)))
+                got = np.array(list(r['x']) + list(r['z']))
+                if dname != 'MBP' and not np.array_equal(got, ref_c):
+                    out.violation('extended-gui/decode-differs',
+                                  f'{gui_name} / {dname}: /decode differs '
+                                  'from the library decoder',
+                                  dict(desc, decoder=dname))
+    finally:
+        for reg, old in ((g.codes, before[0]), (g.decoders, before[1])):
+            for k in list(reg):
+                if k not in old:
+                    reg.pop(k)
+            reg.update(old)
+
+
 def run_task(task, out):
-    if task['kind'] == 'names':
+    if task['kind'] == 'extended':
+        run_extended(task, out)
+    elif task['kind'] == 'names':
         check_names(out, make_client())
     else:
         run_data(task, out)
